@@ -66,6 +66,15 @@ def world():
             await trap()
             return False
 
+    class WF(W):
+        """a manager that is falsy (e.g. an empty pool): must be handled like any other manager"""
+
+        def __len__(s):
+            return 0
+
+        def __repr__(s):
+            return "WF(%s)" % s.name
+
     class Plain(object):
         def __repr__(s):
             return "Plain"
@@ -119,7 +128,7 @@ def world():
             return ucg
         stackscope.unwrap_context_generator.register(fn, mk("g%d" % i))
     T["plain"] = Plain()
-    _W.update(dict(W=W, T=T, gcms=gcms, stackscope=stackscope, Context=Context, Stack=Stack, PRUNE=PRUNE))
+    _W.update(dict(W=W, WF=WF, T=T, gcms=gcms, stackscope=stackscope, Context=Context, Stack=Stack, PRUNE=PRUNE))
     return _W
 
 
@@ -134,6 +143,8 @@ def setup(case):
     for i, nm in enumerate(names):
         if nm.startswith("w"):
             T["objs"][nm] = w["W"](nm)
+        elif nm.startswith("f"):
+            T["objs"][nm] = w["WF"](nm)
         else:
             mgr = w["gcms"][nm]()
             mgr.__enter__()  # start the generator so that it has a frame
@@ -184,7 +195,7 @@ def reference(case, exiting):
         # elaborate
         if cur == "PLAIN":
             pass
-        elif cur.startswith("w"):
+        elif cur[0] in "wf":
             log.append(("elab", cur))
             ntrans += 1
             e = table[cur]["elab"]
@@ -204,7 +215,7 @@ def reference(case, exiting):
         # unwrap
         if cur == "PLAIN":
             r = None
-        elif cur.startswith("w"):
+        elif cur[0] in "wf":
             log.append(("unwrap", cur))
             ntrans += 1
             r = table[cur]["unwrap"]
@@ -327,13 +338,13 @@ LASTS = [None, "PRUNE", "self", "first"]
 
 
 def gen_cases(maxlen):
-    kinds_all = ["w", "g"]
+    kinds_all = ["w", "g", "f"]
     for L in range(1, maxlen + 1):
         for kinds in itertools.product(kinds_all, repeat=L):
             names = []
             for i, k in enumerate(kinds):
                 names.append("%s%d" % (k, i))
-            elab_opts = [ELABS_W if k == "w" else ["builtin"] for k in kinds]
+            elab_opts = [(ELABS_W if k == "w" else (["none", "desc"] if k == "f" else ["builtin"])) for k in kinds]
             for elabs in itertools.product(*elab_opts):
                 # an element that sets obj:=Plain ends the chain there (later elements would be unreachable): only allow on last
                 if any(e == "obj" for e in elabs[:-1]):
@@ -353,7 +364,7 @@ def check_case(case):
         stats[1] |= ref["states"]
         got, log = run_bare(case, exiting)
         problems += compare(ref, got, log, "bare/exiting=%r" % exiting)
-        if case["names"][0].startswith("w") and not case.get("long"):
+        if case["names"][0][0] in "wf" and not case.get("long"):
             got2, log2 = run_in_extract(case, exiting)
             if got2 is None:
                 problems.append(log2)
@@ -378,7 +389,7 @@ def run(ctx):
         ctx.count("evaluations")
         ctx.count("distinct_nontrivial")
         ctx.count("transitions", stats[0])
-        ctx.count("traces_validated_against_impl", 4 if case["names"][0].startswith("w") else 2)
+        ctx.count("traces_validated_against_impl", 4 if case["names"][0][0] in "wf" else 2)
         states |= stats[1]
         if problems:
             c = dict(case)
